@@ -8,6 +8,7 @@ from ..rules import (decide_states, subscript_bounds_obligations, pure_params, M
                      fmt_trace, relevant_guards, relevant_atoms, inline_locals)
 
 ID = "C01"
+ANCHORS = 'ersatz.substitute,ersatz.insert,ersatz.delete,ersatz.multisubstitute,ersatz.randomize'.split(",")
 MIN_INSTANCES = 20
 EXPLANATION = (
     "Static rules over tangermeme/ersatz.py (ast; nothing executed). R-GUARD: trace-partitioned abstract "
